@@ -417,7 +417,12 @@ class NetworkService(ModelElement):
         """
         assert(isinstance(ns, NetworkService))
         self_iface = self.add_interface(name=self.name + '-' + ns.name, itype=InterfaceType.ServicePort, **kwargs)
-        other_iface = ns.add_interface(name=ns.name + '-' + self.name, itype=InterfaceType.ServicePort)
+        try:
+            other_iface = ns.add_interface(name=ns.name + '-' + self.name, itype=InterfaceType.ServicePort)
+        except Exception:
+            # don't leave our half of the peering behind
+            self.topo.graph_model.remove_cp_and_links(node_id=self_iface.node_id)
+            raise
         # link them together with L2Path
         peer_link = Link(name=self_iface.name + '-link', topo=self.topo, etype=ElementType.NEW,
                          interfaces=[self_iface, other_iface], ltype=LinkType.L2Path)
